@@ -43,7 +43,7 @@ func (g *sm4GcmAsm) Open(dst, nonce, ciphertext, additionalData []byte) ([]byte,
 	ret := ensureCapacity(dst, len(ciphertext)-g.tagSize)
 
 	var tagMatch int
-	if ret != nil {
+	if len(ret) > len(dst) { // there is output to write; a tag-only ciphertext has none, whatever dst is
 		tagMatch = openAsm(&g.roundKeys[0], g.tagSize,&ret[len(dst)], nonce, ciphertext, additionalData, &temp[0])
 	}else{
 		tagMatch = openAsm(&g.roundKeys[0], g.tagSize,nil, nonce, ciphertext, additionalData, &temp[0])
